@@ -58,6 +58,9 @@ def configs(tier, seed):
         _cfg((2, 2, 1), (1, 1, 1), "uint8", "uint16", scaling=(4.0, -3.0), full=False, layout="gzip"),
         _cfg((1, 1, 1), (64, 64, 64), "uint64", "uint64"),
         _cfg((3, 3, 1, 3), (2, 2, 2), "uint8", "uint8", layout="sharded"),
+        _cfg((2, 2, 1, 2), (2, 2, 1), "uint32", "uint32", enc="compressed_segmentation", block=(2, 2, 1), cost=8),   # two channels
+        _cfg((3, 2, 2), (2, 2, 2), "uint16", "uint16", big_endian=True),        # big-endian input file
+        _cfg((2, 2, 2), (2, 2, 1), "float32", "float32", big_endian=True, layout="flat", full=False),
     ]
     if tier == "thorough":
         out += [_cfg((5, 4, 3), (2, 2, 2), "uint16", "uint16", layout="sharded"), _cfg((4, 3, 3, 2), (4, 2, 1), "int32", "uint16"),
@@ -120,7 +123,8 @@ def H_convert(ctx, cfg):
     if sharding:
         options["sharding"] = "1,1,0"
     sl, it = cfg["scaling"] or (None, None)
-    img = V.FakeImage(vol, slope=sl, inter=it)
+    src = SArray(vol.a, real_np.dtype(i).newbyteorder(">")) if cfg.get("big_endian") else vol
+    img = V.FakeImage(src, slope=sl, inter=it)
     acc = W.accessor(url, options)
     writer = W.pio.get_IO_for_existing_dataset(acc)
     stores = [0]
@@ -255,6 +259,8 @@ def replay(cfg, cex):
         vol = real_np.array([v if v < 2 ** 63 else v - 2 ** 64 for v in vals] if dt.kind == "i" else vals,
                             dtype=real_np.int64 if dt.kind == "i" else real_np.uint64).astype(dt).reshape(shape)
     C = shape[3] if len(shape) == 4 else 1
+    if cfg.get("big_endian"):
+        vol = vol.astype(vol.dtype.newbyteorder(">"))
     sharding = (1, 1, 0) if cfg["layout"] == "sharded" else None
     csz = cs if not sharding else [max(cs)] * 3
     info = V.make_info(o, C, shape[:3], csz, cfg["enc"], cfg["block"], sharding)
